@@ -32,6 +32,7 @@ HEADER = [
     "from Reduino.Utils import sleep",
     "",
     'target("COM3", upload=False)',
+    "ADDR = 0x3F",
 ]
 
 # ---------------------------------------------------------------------------------------------------------
@@ -39,6 +40,8 @@ HEADER = [
 # ---------------------------------------------------------------------------------------------------------
 _PAR_PINS = [(22, 23, 24, 25, 26, 27), (28, 29, 30, 31, 32, 33), (34, 35, 36, 37, 38, 39)]
 _I2C_ADDR = ["0x27", "0x3F", "0x26"]
+# second spelling set (alt=1): falsy / zero-valued literals and an address held in a variable
+_I2C_ADDR_ALT = ["0", "ADDR", "0x00"]
 NEST_SHAPES = ("nest-if", "nest-for", "nest-while", "nest-try")
 
 
@@ -58,7 +61,8 @@ def _decl(kind: str, i: int, alt: int = 0) -> tuple[str, str, str]:
         return n, f"{n} = {ctor}", f'{n}.write(0, 0, "p{i}")'
     if kind == "lcdi":
         n = f"li{i}"
-        ctor = f"LCD(i2c_addr={_I2C_ADDR[i]}, cols=16, rows=2)" if form == 0 else f"LCD(i2c_addr={_I2C_ADDR[i]})"
+        addr = (_I2C_ADDR_ALT if alt else _I2C_ADDR)[i]
+        ctor = f"LCD(i2c_addr={addr}, cols=16, rows=2)" if form == 0 else f"LCD(i2c_addr={addr})"
         return n, f"{n} = {ctor}", f'{n}.write(0, 1, "i{i}")'
     if kind == "led":
         return "led0", "led0 = Led(13)", "led0.toggle()"
